@@ -52,7 +52,7 @@ from odl.util import ufuncs as OU
 from odl.util import utility as OUT
 
 PROPERTY = 'C17'
-BUDGET = {'quick': 600, 'thorough': 3600}
+BUDGET = {'quick': 1500, 'thorough': 3600}
 
 
 # ------------------------------------------------------------------------------------------
